@@ -21,7 +21,7 @@ class DrainModel:
         self.facts, self.adt = facts, adt
         self.d = method(facts, T_DROP, adt, "drop")
         file = self.d.file
-        self.f = inline.inlined(facts, self.d.id, stop=lambda x: facts.fns[x].rec.get("local") and facts.fns[x].file != file, extern_ok=Q.std_small)
+        self.f = inline.inlined(facts, self.d.id, stop=shared.helper_stop(facts, file), extern_ok=Q.std_small)
         self._paths = {}
 
     def paths(self, init=None, max_visits=3):
@@ -189,6 +189,25 @@ def stops_rule(ctx, rule, adt, what, emit=("repeats", "stops")):
     return loops and not bad
 
 
+def zero_established(p, target):
+    """did the path establish that the quantity `target` (a linear form) is 0?  By a comparison with 0 that came out the way it does at 0
+    and not at 1 (`x > 0` false, `x == 0` true, ...), or by a `match` on the quantity itself that took the arm of 0"""
+    for bb, c in p.conds:
+        if not c or c[0] != "scalar" or not c[1]:
+            continue
+        if c[1][0] == "binop" and c[1][1] in CMP and isinstance(c[2], bool):
+            op, a, b = c[1][1], c[1][2], c[1][3]
+            for x, y, flip in ((a, b, False), (b, a, True)):
+                if absint.const_of(y) == 0 and norm(linear(x)) == target:
+                    at0 = CMP[op](0, 0)
+                    at1 = CMP[op](0, 1) if flip else CMP[op](1, 0)
+                    if at0 != at1 and c[2] == at0:
+                        return True
+        elif c[2] == 0 and not isinstance(c[2], bool) and norm(linear(c[1])) == target:
+            return True
+    return False
+
+
 def owed_rules(ctx, rule, adt, size_key, rules=None):
     """the length-limited reader's drain, with its remaining-size field bound to SIZE"""
     facts = ctx.facts
@@ -212,30 +231,12 @@ def owed_rules(ctx, rule, adt, size_key, rules=None):
             o = outcome(p, rs[-1][4])
             if o == "nonzero":
                 owed = owed_before(rs, len(rs))
-                done = False
-                for bb, c in p.conds:
-                    if c and c[0] == "scalar" and c[1] and c[1][0] == "binop" and c[1][1] in CMP and isinstance(c[2], bool):
-                        op, a, b = c[1][1], c[1][2], c[1][3]
-                        for x, y, flip in ((a, b, False), (b, a, True)):
-                            if absint.const_of(y) == 0 and norm(linear(x)) == owed:
-                                at0 = CMP[op](0, 0)
-                                at1 = CMP[op](0, 1) if flip else CMP[op](1, 0)
-                                if at0 != at1 and c[2] == at0:
-                                    done = True
+                done = zero_established(p, owed)
                 if not done:
                     bad_x.append("leaves after %d read(s) that returned bytes without having established that %s reached 0" % (len(rs), show(owed)))
         elif p.end[0] == "return" and not rs:
             # no read at all: only when SIZE == 0 was established
-            zero = False
-            for bb, c in p.conds:
-                if c and c[0] == "scalar" and c[1] and c[1][0] == "binop" and c[1][1] in CMP and isinstance(c[2], bool):
-                    op, a, b = c[1][1], c[1][2], c[1][3]
-                    for x, y, flip in ((a, b, False), (b, a, True)):
-                        if absint.const_of(y) == 0 and norm(linear(x)) == {"S": 1}:
-                            at0 = CMP[op](0, 0)
-                            at1 = CMP[op](0, 1) if flip else CMP[op](1, 0)
-                            if at0 != at1 and c[2] == at0:
-                                zero = True
+            zero = zero_established(p, {"S": 1})
             if not zero:
                 bad_x.append("returns without reading although bytes may be owed")
     ctx.counts["%s discard reads examined (over all abstract paths)" % rule] = n_reads
@@ -307,7 +308,7 @@ def latch_rule(ctx, rule):
         if init is None:
             ctx.ob(rule, "%s|latch" % aid, "the reader's initial state is definite", False, where)
             continue
-        fr = inline.inlined(facts, rd.id, stop=lambda x: facts.fns[x].rec.get("local") and facts.fns[x].file != rd.file, extern_ok=Q.std_small)
+        fr = inline.inlined(facts, rd.id, stop=shared.helper_stop(facts, rd.file), extern_ok=Q.std_small)
         fields = [x["name"] for x in a["variants"][0]["fields"]]
         def run_read(empty):
             st = symex.Sym(fr)
